@@ -66,7 +66,7 @@ def run(chk: Check):
             continue
         for name in NAMES:
             bs = rng.randint(1, 3)
-            smp = ch.make_builtin(name, bs, ch.SMALL_OPTS.get(name), rng.randrange(10 ** 6))
+            smp = ch.make_builtin(name, bs, ch.random_opts(name, rng) if rng.random() < 0.5 else ch.SMALL_OPTS.get(name), rng.randrange(10 ** 6))
             pts, _ = gen_history(rng, sp, rng.randint(max(bs, 5), 12))
             kind = rng.choice(["extreme", "extreme", "ties"])
             losses = extreme_losses(rng, len(pts)) if kind == "extreme" else np.array([float(rng.randint(0, 2)) for _ in range(len(pts))])
@@ -95,7 +95,7 @@ def run(chk: Check):
             continue
         for name in NAMES:
             bs = rng.randint(1, 3)
-            smp = ch.make_builtin(name, bs, ch.SMALL_OPTS.get(name), rng.randrange(10 ** 6))
+            smp = ch.make_builtin(name, bs, ch.random_opts(name, rng) if rng.random() < 0.5 else ch.SMALL_OPTS.get(name), rng.randrange(10 ** 6))
             pts, _ = gen_history(rng, sp, rng.randint(max(bs, 5), 9))
             losses = np.array([5.0 + rng.random() for _ in range(len(pts))])
             handed = []      # (call index, points array, its bytes when handed over, losses array, its bytes)
@@ -175,7 +175,7 @@ def run(chk: Check):
             if sp.dims > 4:
                 continue
             bs = rng.randint(1, 3)
-            smp = ch.make_builtin(name, bs, ch.SMALL_OPTS.get(name), rng.randrange(10 ** 6))
+            smp = ch.make_builtin(name, bs, ch.random_opts(name, rng) if rng.random() < 0.5 else ch.SMALL_OPTS.get(name), rng.randrange(10 ** 6))
             smp.max_deduplication_passes = 0
             pts, losses = gen_history(rng, sp, rng.randint(6, 12))
             cls = type(smp)
